@@ -43,6 +43,9 @@ type Tap struct {
 	// tear >= 0: the next Write call forwards only that many bytes and fails with a
 	// transient error (as an expiring write deadline does); the trunk keeps working
 	tear int
+	// tearSkip: trunk Write calls that still pass before the armed tear applies (1 = the frame
+	// header goes out whole and the PAYLOAD write is the torn one)
+	tearSkip int
 	// SlowBig > 0: Write calls of more than 1 MiB are delayed by this much (the mux holds its
 	// write lock meanwhile, so writers racing for the trunk reliably queue up behind it)
 	SlowBig time.Duration
@@ -52,10 +55,16 @@ type Tap struct {
 
 func NewTap(c net.Conn) *Tap { return &Tap{Conn: c, limit: -1, tear: -1} }
 
-// Tear arms a one-shot short write: see Tap.tear.
+// Tear arms a one-shot short write: see Tap.tear. k counts bytes of the next FRAME: k < 8 tears
+// its header write after k bytes; k >= 8 lets the header out and tears the payload write after
+// k-8 bytes.
 func (t *Tap) Tear(k int) {
 	t.mu.Lock()
-	t.tear = k
+	if k >= 8 {
+		t.tear, t.tearSkip = k-8, 1
+	} else {
+		t.tear, t.tearSkip = k, 0
+	}
 	t.mu.Unlock()
 }
 
@@ -66,7 +75,9 @@ func (t *Tap) Write(p []byte) (int, error) {
 	if t.cut {
 		return len(p), nil
 	}
-	if t.tear >= 0 {
+	if t.tear >= 0 && t.tearSkip > 0 {
+		t.tearSkip--
+	} else if t.tear >= 0 {
 		k := t.tear
 		t.tear = -1
 		if k < len(p) {
